@@ -247,9 +247,14 @@ Definition cmd_key (k : bytes) : bytes :=
   | PPanic _ => str "PANIC-model"
   end.
 
-(* toml <value script whose root is a table>: the same tree read as a toml::Value (arrays -> Value::Array, inline
-   tables -> Value::Table in the order of the script): the text of toml::to_string(&value) (`t=`) and of Display for
-   toml::Table (`tt=`) as Model/TomlDisplay.v builds them, and the statement of C06_toml_display evaluated on it *)
+(* toml <kind> <value script> [key]  (harness/src/bin/c06.rs `toml`): the same script read as a toml::Value — arrays ->
+   Value::Array, inline tables -> toml::Table filled with `insert` in script order, a repeated key replacing the value;
+   toml::Table is a BTreeMap in the default build, so a table lists its keys in byte order (`canon`) — and printed by
+   toml's own entry points as Model/TomlDisplay.v builds their trees:
+     kind 'V' / 'X'   vd=<hex>   Display for toml::Value on the lone value / on the entry table[key]  (tv_value)
+     kind 'T'         vd=<hex> vs=<hex> td=<hex>   Display of the table as a Value; toml::to_string(&Value::Table)
+                      (tv_doc true); Display for toml::Table = toml::to_string(&Table) (tv_doc false)
+   rt_<name>=ok|BAD|ERR|PANIC-model per text: C06_toml_value_built + C06_value / C06_toml_display evaluated on the case *)
 Fixpoint tvc_of_cval (c : cval) : tvc :=
   match c with
   | CScalar s => TvLeaf s
@@ -271,23 +276,73 @@ Fixpoint tvc_eqb (a b : tvc) : bool :=
        end) x y
   | _, _ => false
   end.
+
+(* BTreeMap<String, Value>::insert: keys in byte order (String's Ord), an equal key gets the new value *)
+Fixpoint blt (a b : bytes) : bool :=
+  match a, b with
+  | [], [] => false
+  | [], _ :: _ => true
+  | _ :: _, [] => false
+  | x :: a', y :: b' => (b2n x <? b2n y)%N || ((b2n x =? b2n y)%N && blt a' b')
+  end.
+Fixpoint bt_insert (k : bytes) (x : tvc) (es : list (bytes * tvc)) : list (bytes * tvc) :=
+  match es with
+  | [] => [(k, x)]
+  | (k', x') :: es' =>
+    if bytes_eqb k' k then (k', x) :: es'
+    else if blt k k' then (k, x) :: (k', x') :: es'
+    else (k', x') :: bt_insert k x es'
+  end.
+Fixpoint canon (v : tvc) : tvc :=
+  match v with
+  | TvLeaf s => TvLeaf s
+  | TvArr l => TvArr (map canon l)
+  | TvTab m => TvTab (fold_left (fun acc kv => bt_insert (fst kv) (snd kv) acc) (map (fun kv => (fst kv, canon (snd kv))) m) [])
+  end.
+Fixpoint tv_lookup (k : bytes) (m : list (bytes * tvc)) : option tvc :=
+  match m with
+  | [] => None
+  | (k', x) :: m' => if bytes_eqb k' k then Some x else tv_lookup k m'
+  end.
+
+Definition show_rt_value (v : tvc) : bytes :=
+  match parse_value_raw (display_value (render_value float_text (tv_value v))) with
+  | POk x => if tvc_eqb (tvc_of_aval (abs_value x)) (val_order v) then str "ok" else str "BAD"
+  | PErr _ _ => str "ERR"
+  | PPanic _ => str "PANIC-model"
+  end.
+Definition show_lone (v : tvc) : bytes :=
+  str "vd=" ++ show_hex (display_value (tv_value v)) ++ str " rt_vd=" ++ show_rt_value v.
+Definition show_doc (name : string) (three : bool) (m : list (bytes * tvc)) : bytes :=
+  let t := tv_doc three m in
+  str " " ++ str name ++ str "=" ++ show_hex (display_document t REmpty) ++ str " rt_" ++ str name ++ str "=" ++
+  match parse_document (display_document (render_tbl float_text t) REmpty) with
+  | POk d => if tvc_eqb (TvTab (tvc_of_entries (abs_tbl (doc_root d)))) (TvTab (root_order three m)) then str "ok" else str "BAD"
+  | PErr _ _ => str "ERR"
+  | PPanic _ => str "PANIC-model"
+  end.
+
 Definition cmd_toml (script : bytes) : bytes :=
-  match rd_value (List.length script) script with
-  | Some (c, []) =>
-    match tvc_of_cval c with
-    | TvTab m =>
-      let one (three : bool) :=
-          let t := tv_doc three m in
-          show_hex (display_document t REmpty) ++ str " rt=" ++
-          match parse_document (display_document (render_tbl float_text t) REmpty) with
-          | POk d => if tvc_eqb (TvTab (tvc_of_entries (abs_tbl (doc_root d)))) (TvTab (root_order three m)) then str "ok" else str "BAD"
-          | PErr _ _ => str "ERR"
-          | PPanic _ => str "PANIC-model"
-          end in
-      str "t=" ++ one true ++ str " tt=" ++ one false
-    | _ => str "not-a-table"
+  match script with
+  | kind :: body =>
+    match rd_value (List.length body) body with
+    | Some (c, rest_) =>
+      let v := canon (tvc_of_cval c) in
+      if tag_is kind "V" then match rest_ with [] => show_lone v | _ => str "bad-script" end
+      else if tag_is kind "X" then
+        match rd_key rest_, v with
+        | Some (k, []), TvTab m => match tv_lookup k m with Some x => show_lone x | None => str "no-such-key" end
+        | _, _ => str "bad-script"
+        end
+      else if tag_is kind "T" then
+        match rest_, v with
+        | [], TvTab m => show_lone v ++ show_doc "vs" true m ++ show_doc "td" false m
+        | _, _ => str "not-a-table"
+        end
+      else str "bad-script"
+    | None => str "bad-script"
     end
-  | _ => str "bad-script"
+  | [] => str "bad-script"
   end.
 
 Definition run_cmd (name : bytes) (args : list bytes) : bytes :=
